@@ -144,7 +144,8 @@ def weights_small(chk, natoms):
         return I.Arr(x.shape, fn, "real")
 
     def mk_obj(eng_):
-        o = I.Obj(cls)
+        # the state the real constructor leaves (whatever fields it sets), with symbolic order and radii in place of the defaults
+        o = eng_.new_object(cls)
         o.fields["_order"] = z3.Int("order")
         o.fields["_radii"] = {k + 1: Rr[k] for k in range(natoms)}
         return o
@@ -170,6 +171,48 @@ def weights_small(chk, natoms):
             return res
         finally:
             eng_.callee_contracts.pop(f"{MOD}.BeckeWeights._switch_func", None)
+
+    def thunk_history(eng_):
+        """One instance, two evaluations, the coordinate array updated in place in between (atom 0 moved): the second answer is the one a
+        fresh instance gives for the current coordinates ("for any molecule" - no state is carried from one evaluation to the next)."""
+        eng_.callee_contracts[f"{MOD}.BeckeWeights._switch_func"] = sw
+        try:
+            for k in range(natoms):
+                eng_.assume(Rr[k] > 0)
+            pts, atc, nums = args(eng_, P)
+            one = mk_obj(eng_)
+            eng_.call_method(one, "generate_weights", pts, atc, nums, select=0)
+            eng_.call_method(one, "compute_atom_weight", pts, atc, nums, 0)
+            B0 = [z3.Real(f"B0{c}") for c in range(3)]
+            M.setitem(eng_, atc, 0, I.Arr((3,), lambda c: M.select_const(c, [lambda v=v: v for v in B0]), "real"))
+            rows = [B0] + A[1:]
+            atc2 = I.Arr((natoms, 3), lambda k, c: M.select_const(k, [lambda row=row: M.select_const(c, [lambda v=v: v for v in row]) for row in rows]), "real")
+            res = {}
+            for k in range(natoms):
+                res[("same", "g", k)] = eng_.call_method(one, "generate_weights", pts, atc, nums, select=k).fn(0)
+                res[("same", "a", k)] = eng_.call_method(one, "compute_atom_weight", pts, atc, nums, k).fn(0)
+                res[("fresh", "g", k)] = eng_.call_method(mk_obj(eng_), "generate_weights", pts, atc2, nums, select=k).fn(0)
+                res[("fresh", "a", k)] = eng_.call_method(mk_obj(eng_), "compute_atom_weight", pts, atc2, nums, k).fn(0)
+            return res
+        finally:
+            eng_.callee_contracts.pop(f"{MOD}.BeckeWeights._switch_func", None)
+
+    if natoms == 2:
+        rep_h = {"what": "weights", "natoms": natoms, "history": True}
+        houts = chk.explore(f"weights/{natoms}-atoms/history", thunk_history, func=fqg)
+        hrets = [o for o in houts if o.kind == "return"]
+        chk.add(f"weights/{natoms}-atoms/history/post/returns", [], z3.BoolVal(bool(hrets) and len(hrets) == len(houts)), func=fqg, meta={"replay": rep_h})
+        for oi, o in enumerate(hrets):
+            sfx = "" if len(hrets) == 1 else f"@{oi}"
+            for route in ("g", "a"):
+                for k in range(natoms):
+                    u, v = T.zr(o.value[("same", route, k)]), T.zr(o.value[("fresh", route, k)])
+                    name = f"weights/{natoms}-atoms/history/post/answers-for-the-current-coordinates-{'generate_weights' if route == 'g' else 'compute_atom_weight'}-atom{k}{sfx}"
+                    if z3.simplify(u).eq(z3.simplify(v)):
+                        chk.add(name, [], z3.BoolVal(True), func=fqg if route == "g" else fqa, meta={"replay": rep_h})
+                    else:
+                        chk.add(name, list(o.pc), u == v, func=fqg if route == "g" else fqa, meta={"replay": rep_h})
+        del used[:]
 
     def geometry_facts():
         """distances are non-negative, atoms are at distinct positions, |mu| <= 1 (proved lemma, instantiated)."""
@@ -327,7 +370,7 @@ def call_chunking(chk):
         points = I.Arr((N, 3), lambda i, c: PT(T.zi(i), T.zi(c)), "real")
         atc = I.Arr((Mm, 3), lambda i, c: z3.RealVal(0), "real")
         indices = I.Arr((Mm + 1,), lambda i: Ind(T.zi(i)), "int")
-        obj = I.Obj(cls)
+        obj = eng_.new_object(cls)
         env = I.Env()
         env.vars.update(self=obj, points=points, atcoords=atc, atnums=I.Arr((Mm,), lambda i: 1, "int"), indices=indices, npoints=N)
         fr = I.Frame(eng_, mod, env, cls, obj, fq)
